@@ -77,7 +77,7 @@ func (b *Broker) process(c *Conn, n int, p *Pkt) {
 		s.log(Rec{Kind: "lostc2b", Conn: c.k, N: n, P: p})
 		return
 	}
-	if c.isSilent() {
+	if c.isSilent() && !c.exemptFromSilence(p) {
 		s.log(Rec{Kind: "dropc2b", Conn: c.k, N: n, P: p, S: "silent"})
 		return
 	}
